@@ -648,7 +648,7 @@ Proof.
   - destruct (conn_open cs c); [apply lb_refl|].
     eapply lb_trans; [|apply IH]. apply lb_with_clients.
   - destruct (existsb _ _); [|apply lb_refl].
-    eapply lb_trans; [|apply IH]. apply lb_with_clients.
+    cbn [fst]. apply lb_with_clients.
 Qed.
 Lemma lb_failover_send li local rs f b p cs w :
   lb_eq p (fst (fst (fst (fst (fst (failover_send li local rs f b p cs w)))))).
